@@ -100,6 +100,7 @@ func (s *serviceImpl) Add(obj Actor) (index uint32, err error) {
 	}
 	s.objects[index] = pendingObject{}
 	s.boxes[index] = NewMailBox(s.objects[index])
+	vhook.Emit("service", s, "reserve", "object", index)
 	s.Unlock()
 
 	a := objectActivation(s, s.session, s.serviceID, index)
@@ -113,6 +114,7 @@ func (s *serviceImpl) Add(obj Actor) (index uint32, err error) {
 		s.objects[index] = obj
 		s.boxes[index] = NewMailBox(obj)
 	}
+	vhook.Emit("service", s, "add", "object", index, "ok", err == nil, "actor", vhook.ID(obj))
 	s.Unlock()
 	return
 }
@@ -155,10 +157,13 @@ func (s *serviceImpl) Remove(objectID uint32) error {
 	if obj, ok := s.objects[objectID]; ok {
 		delete(s.objects, objectID)
 		delete(s.boxes, objectID)
+		vhook.Emit("service", s, "remove", "object", objectID, "actor", vhook.ID(obj))
 		s.Unlock()
+		vhook.Gate("service.remove.unlocked", "object", objectID)
 		obj.OnTerminate()
 		return nil
 	}
+	vhook.Emit("service", s, "remove_unknown", "object", objectID)
 	s.Unlock()
 	return fmt.Errorf("cannot remove object %d", objectID)
 }
@@ -183,6 +188,7 @@ func (s *serviceImpl) Terminate() error {
 	objects := s.objects
 	s.objects = make(map[uint32]Actor)
 	s.boxes = make(map[uint32]MailBox)
+	vhook.Emit("service", s, "terminate")
 	s.Unlock()
 
 	for _, obj := range objects {
